@@ -63,7 +63,7 @@ func TestC13(t *testing.T) {
 		o.IsNoHash = err != nil && strings.Contains(err.Error(), plugin.ErrSecureConfigNoHash.Error())
 		o.ProcessSet = cfg.Cmd.Process != nil
 		// give a launched script a moment to write its marker
-		for i := 0; i < 100 && o.ProcessSet; i++ {
+		for i := 0; i < 1000 && o.ProcessSet; i++ {
 			if _, err := os.Stat(marker); err == nil {
 				break
 			}
